@@ -75,7 +75,7 @@ def sharded(binary, engine, tier, n, profiles, parities, feat="std", extra=None)
 
 def plan_c09(tier):
     if tier == "thorough":
-        ws = sharded("bufmc", "c09", "thorough", 32, ["rel", "dbg"], ["even", "odd"])
+        ws = sharded("bufmc", "c09", "thorough", 64, ["rel"], ["even", "odd"]) + sharded("bufmc", "c09", "quick", 16, ["dbg"], ["even", "odd"])
     else:
         ws = sharded("bufmc", "c09", "quick", 16, ["rel"], ["even"]) + sharded("bufmc", "c09", "mini", 8, ["dbg"], ["odd"])
     return dict(
@@ -85,7 +85,7 @@ def plan_c09(tier):
              "distribution of the payload over the leaves incl. empty leaves) x every sequence of consuming operations (advance/copy_to_slice/try_copy_to_slice/copy_to_bytes with k in {0,1,2,rem-1,rem,rem+1}, get_u8, "
              "set_limit, into_iter) up to the depth bound; at every reached state remaining/chunk/chunks_vectored(dst 0,1,2,3,17) and the structural model are checked. "
              "state = (tree, op sequence); distinct_nontrivial = distinct trees",
-        bounds="quick: payload<=4 (chains<=3), <=2 leaves, <=2 unary adapters, op depth 2, release profile (+ a reduced set in the debug-assertions profile, odd parity); thorough: payload<=6, <=3 leaves, <=3 unary adapters, op depth 3 (2 for chains), both parities and profiles",
+        bounds="quick: payload<=4 (chains<=3), <=2 leaves, <=2 unary adapters, op depth 2, release profile (+ a reduced set in the debug-assertions profile, odd parity); thorough: payload<=6 (chains<=5; every leaf kind in chains up to payload 3), <=3 leaves, <=2 unary adapters, op depth 3 (2 for chains), both parities in the release profile, plus the quick tier in the debug-assertions profile",
         assumptions=["a flat Vec<u8> denotation of the tree is the reference", "payload sizes and adapter depth are bounded as stated"],
     )
 
@@ -124,7 +124,7 @@ def plan_c11(tier):
 
 def plan_c12(tier):
     if tier == "thorough":
-        ws = sharded("bufmc", "c12r", "thorough", 32, ["rel", "dbg"], ["even"]) + sharded("bufmc", "c12w", "thorough", 16, ["rel", "dbg"], ["even"])
+        ws = sharded("bufmc", "c12r", "thorough", 64, ["rel"], ["even"]) + sharded("bufmc", "c12r", "quick", 16, ["dbg"], ["even"]) + sharded("bufmc", "c12w", "thorough", 16, ["rel", "dbg"], ["even"])
     else:
         ws = sharded("bufmc", "c12r", "quick", 16, ["rel"], ["even"]) + sharded("bufmc", "c12w", "thorough", 16, ["rel"], ["even"]) + sharded("bufmc", "c12r", "mini", 8, ["dbg"], ["odd"]) + sharded("bufmc", "c12w", "quick", 4, ["dbg"], ["odd"])
     return dict(
@@ -137,12 +137,12 @@ def plan_c12(tier):
     )
 
 
-HMC_ROOTS = ["0,0", "1,4", "2,4", "2,1", "3,4", "3,1", "4,4", "5,4", "6,4", "7,0", "8,0", "9,4", "9,1", "10,4", "10,1", "11,4", "12,4", "13,4", "14,4", "15,126", "15,64", "16,127", "17,4", "18,4", "11,1024", "19,4"]
-ROOT_WEIGHT = {"19,4": 28, "11,1024": 30, "14,4": 28, "15,126": 25, "15,64": 25, "9,4": 24, "18,4": 22, "12,4": 18, "11,4": 17, "10,4": 17, "9,1": 14, "10,1": 12, "8,0": 8, "17,4": 8, "16,127": 8, "3,4": 7, "2,4": 5, "4,4": 5, "6,4": 5, "5,4": 4, "13,4": 1, "0,0": 1, "1,4": 2, "7,0": 3, "2,1": 3, "3,1": 4}
-QUICK_SHALLOW = {"19,4": 3, "11,1024": 3, "4,4": 3, "6,4": 3, "11,4": 3, "12,4": 3, "15,64": 3}
+HMC_ROOTS = ["0,0", "1,4", "2,4", "2,1", "3,4", "3,1", "4,4", "5,4", "6,4", "7,0", "8,0", "9,4", "9,1", "10,4", "10,1", "11,4", "12,4", "13,4", "14,4", "15,126", "15,64", "16,127", "17,4", "18,4", "11,1024", "19,4", "20,4", "21,4", "22,1024", "23,4"]
+ROOT_WEIGHT = {"23,4": 24, "22,1024": 20, "20,4": 4, "21,4": 4, "19,4": 28, "11,1024": 30, "14,4": 28, "15,126": 25, "15,64": 25, "9,4": 24, "18,4": 22, "12,4": 18, "11,4": 17, "10,4": 17, "9,1": 14, "10,1": 12, "8,0": 8, "17,4": 8, "16,127": 8, "3,4": 7, "2,4": 5, "4,4": 5, "6,4": 5, "5,4": 4, "13,4": 1, "0,0": 1, "1,4": 2, "7,0": 3, "2,1": 3, "3,1": 4}
+QUICK_SHALLOW = {"20,4": 3, "21,4": 3, "22,1024": 3, "23,4": 3, "19,4": 3, "11,1024": 3, "4,4": 3, "6,4": 3, "11,4": 3, "12,4": 3, "15,64": 3}
 HMC_RULE = ("explicit-state search by replay over the real crate under the oracle allocator: states = canonical keys of the concrete handle pool (representation, offsets, lengths, capacities, "
             "reference counts, control blocks, allocation sizes, lineage; modulo address renaming and slot permutation), transitions = every enabled operation of the alphabet with every boundary argument "
-            "(0,1,len-1,len,cap-1,cap,alloc-len, +1 variants, usize::MAX / isize::MAX class) on every live handle, from each of 26 roots (all representations, payload 0/1/4; uniquely held shared handles with a front offset; capacity-128 and capacity-1024 buffers where size-relative policies and the original-capacity classes are active), "
+            "(0,1,len-1,len,cap-1,cap,alloc-len, +1 variants, usize::MAX / isize::MAX class) on every live handle, from each of 30 roots (all representations, payload 0/1/4; uniquely held shared handles with a front offset; capacity-128, capacity-1024 and capacity-32768 buffers where size-relative policies and the original-capacity classes are active; a 1024-byte Vec-backed Bytes; owners that are plain Vecs or answer as_ref() differently per call), "
             "<= 3 handles, second root allowed; after every transition all oracles run and a drop-all epilogue checks the ledger. distinct_nontrivial = transitions that changed the canonical state")
 
 
@@ -158,7 +158,7 @@ def hmc_workers(prop, depth, profiles, parities, flags, roots=None, alphabet="fu
     return ws
 
 
-def plan_hmc(prop, flags_quick, flags_thorough, oracle_text, profiles_quick=("rel",), both_profiles_thorough=True, with_loom=False, with_miri=False):
+def plan_hmc(prop, flags_quick, flags_thorough, oracle_text, profiles_quick=("rel",), both_profiles_thorough=True, with_loom=False, with_miri=False, bufmut_stage=False):
     def plan(tier):
         if tier == "thorough":
             ws = hmc_workers(prop, 5, ["rel", "dbg"] if both_profiles_thorough else ["rel"], ["even", "odd"], flags_thorough)
@@ -180,6 +180,13 @@ def plan_hmc(prop, flags_quick, flags_thorough, oracle_text, profiles_quick=("re
             r, d = a[a.index("--root") + 1], int(a[a.index("--depth") + 1])
             return ROOT_WEIGHT.get(r, 10) * (12.0 ** (d - 4)) * (1.6 if w.get("profile") == "dbg" else 1.0)
         ws.sort(key=lambda w: -cost(w))
+        if bufmut_stage:
+            # the provided BufMut / Buf methods write and read memory too: the write-side engine (guarded arena, allocator
+            # canaries) reports writes outside the target's region under this property as well
+            if tier == "thorough":
+                ws += sharded("bufmc", "c11", "thorough", 32, ["rel"], ["even", "odd"])
+            else:
+                ws += sharded("bufmc", "c11", "quick", 8, ["rel"], ["even"])
         extra = None
         if with_loom:
             import loomrun
@@ -297,7 +304,7 @@ PLANS = {
     "C05": plan_loom("C05", "every read sees the expected bytes at the original address; at most one party obtains the buffer without copying and whoever does overwrites it; the tracked buffer is freed exactly once, no control block referring to it leaks, no block is freed twice"),
     "C06": plan_loom("C06", "loom's causality check on ghost UnsafeCells: a ghost read before every use/drop of a handle, a ghost write at the real free (inside the allocator hook) and after every zero-copy exclusive acquisition; plus loom's own checks on the crate's atomics (with_mut vs concurrent loads)"),
     "C01": plan_hmc("C01", [], [], "after every step every live handle's bytes, len, Buf::remaining/chunk equal an independent Vec<u8> model with globally unique payload bytes; Vec::from results compared", with_loom=True),
-    "C02": plan_hmc("C02", ["--oom-probes"], ["--oom-probes"], "allocator ledger (unknown/interior/double/wrong-layout frees), canaries and poison verified after every step, containment of every non-empty handle in one live block or registered region, process status (crash handler), fork-isolated allocatable-but-huge requests", profiles_quick=("rel", "dbg"), with_loom=True, with_miri=True),
+    "C02": plan_hmc("C02", ["--oom-probes"], ["--oom-probes"], "allocator ledger (unknown/interior/double/wrong-layout frees), canaries and poison verified after every step, containment of every non-empty handle in one live block or registered region, process status (crash handler), fork-isolated allocatable-but-huge requests", profiles_quick=("rel", "dbg"), with_loom=True, with_miri=True, bufmut_stage=True),
     "C03": plan_hmc("C03", ["--perms"], ["--perms"], "drop-all epilogue after every transition and in every permutation at every new canonical state: no crate-attributed block live, no double free; instrumented owner: as_ref once, dropped exactly once, not before the last view, also when as_ref panics", with_loom=True),
     "C04": plan_hmc("C04", [], [], "BytesMut capacity regions pairwise disjoint, disjoint from visible Bytes, inside one live block; fill-spare writes invisible elsewhere; reserve/try_reclaim promises incl. unrepresentable sizes", profiles_quick=("rel", "dbg"), with_loom=True),
     "C07": plan_hmc("C07", [], [], "per transition: listed sharing operations allocate no align-1 block and every resulting non-empty handle (for split_off/split_to also empty ones) starts at source address + logical offset", with_loom=True),
